@@ -1,5 +1,14 @@
 # Per-property registration used by /verif/check: harness module, test function, budgets (seconds per worker).
 PROPS = {
+    "C01": {
+        "mod": "exp", "test": "TestC01", "level": "fault_enumeration", "quick_s": 20, "thorough_s": 480,
+        "step_timeout_s": 20,
+        "technique": "deterministic crash simulation: every storage-call boundary of seeded scripts as a process death, nested to depth 2-3, on a simulated disk with a crash fence",
+        "level_text": "For every seeded script of queue operations the check enumerates every storage-operation boundary (before and after each call) of every incarnation as a process death, and for each of those every death point of the recovery and life that follow (depth 2, depth 3 in the thorough tier for short scripts), plus sampled plans of depth <= 4. Exhaustive over crash points per script; the scripts themselves are sampled.",
+        "level_note": "Trusted: the simulated disk applies each storage.Client call atomically (the documented contract; bbolt-backed file storage is transactional) and the crash fence (dying incarnation continues on a private fork, its exports and acknowledgements are discarded). Storage I/O errors are not injected: the property quantifies over deaths.",
+        "state_measure": "not state-based: coverage is counted in enumerated lifetimes (script x crash plan)",
+        "assumptions": ["storage.Client calls are atomic and durable when they return", "a hand-off counts as completed when the simulated backend returns a final outcome to a live incarnation", "retry is configured without max_elapsed_time so that a transient answer is never final"],
+    },
     "C02": {
         "mod": "exp", "test": "TestC02", "level": "exploration", "quick_s": 20, "thorough_s": 420,
         "step_timeout_s": 6,
